@@ -161,6 +161,46 @@ Definition py_decode (v : pyval) : res pyval :=
 Definition py_rstrip0 (v : pyval) : pyval := match v with PText b => PText (rstrip0 b) | x => x end.
 Definition py_zero_bytes (n : pyval) : pyval := match n with PInt z => PBytes (zeros (Z.to_nat z)) | _ => PNone end.
 
+(* Fields objects and freshly constructed items (VALGET response) *)
+Definition py_new_fields : pyval := PObj [("items"%string, PList [])].
+Definition py_fields_add (f x : pyval) : pyval :=
+  match py_getattr f "items" with PList l => py_setattr f "items" (PList (l ++ [x])) | _ => f end.
+Definition py_new_int_item (fmt : string) : pyval := PObj [("fmt"%string, PStr fmt); ("value"%string, PInt 0)].
+Definition py_new_cfgkey : pyval :=
+  PObj [("group_id"%string, PNone); ("item_id"%string, PNone); ("bits"%string, PInt 0);
+        ("signed"%string, PBool false); ("value"%string, PNone)].
+(* UbxFrame.unpack() = self.f.unpack(self.data) over integer items: one Item.unpack after the other (BridgeItems.v);
+   returns the unread rest and the fields with their new values *)
+Fixpoint items_unpack (items : list pyval) (data : bytes) : res (list pyval * bytes) :=
+  match items with
+  | [] => Ok ([], data)
+  | it :: t =>
+      match py_getattr it "fmt" with
+      | PStr f =>
+          match fmt_of ("<" ++ f) with
+          | Some (sg, w) =>
+              match unpack_int sg w (firstn w data) with
+              | Ok z => match items_unpack t (skipn w data) with
+                        | Ok (r, rest) => Ok (py_setattr it "value" (PInt z) :: r, rest)
+                        | Raise e => Raise e
+                        end
+              | Raise e => Raise e
+              end
+          | None => Raise StructError
+          end
+      | _ => Raise AttributeError
+      end
+  end.
+Definition py_frame_unpack (f data : pyval) : res pyval :=
+  match py_getattr f "items", data with
+  | PList items, PBytes d =>
+      match items_unpack items d with
+      | Ok (items', rest) => Ok (PTuple [PBytes rest; py_setattr f "items" (PList items')])
+      | Raise e => Raise e
+      end
+  | _, _ => Raise AttributeError
+  end.
+
 (* the static helpers of CfgKeyData and the key database (their own Tie B: BridgeCfgKeys.v, reflected tables) *)
 Definition py_build_header (g i b : pyval) : res pyval :=
   match g, i, b with
